@@ -4,5 +4,7 @@
 //@include inc/codec_lemmas.rs
 //@include inc/codec_fns.rs
 //@include inc/tree_spec.rs
+//@include inc/tree_lemmas.rs
+//@include inc/order_lemmas.rs
 //@include inc/tree_fns.rs
 fn main() {}
